@@ -655,5 +655,6 @@ func main() {
 	// the function-call protocol of cty/function/function.go, translated (translate_fn.go)
 	nfn := translateFnCall(*repo, *leanDir, hdr)
 	fmt.Printf("ctyextract: %d Lean definitions translated from function.Function's returnTypeForValues/ReturnTypeForValues/ReturnType/Call\n", nfn)
+	fmt.Printf("ctyextract: %d Lean definitions translated from cty/unknown_refinement.go (Refine, RefinementBuilder, NewValue)\n", translateRefineFns(*repo, *leanDir, hdr))
 	fmt.Printf("ctyextract: %d stdlib functions, %d op prologues, %d delimiters, %d+%d primitive conversions\n", len(fns), len(ps), len(rs), len(safe), len(unsafe))
 }
